@@ -36,6 +36,10 @@ type c11Case struct {
 	// CancelDialCtx: the context given to Client.Dial is cancelled as soon as
 	// Dial has returned.
 	CancelDialCtx bool `json:"cancel_dial_ctx,omitempty"`
+	// DelFail: the first DelFail DelCipherBox calls fail with a transient
+	// error (they happen when the server tears down the passphrase mailboxes
+	// at the post-pairing switch).
+	DelFail int `json:"del_fail,omitempty"`
 }
 
 type c11Outcome struct {
@@ -67,6 +71,7 @@ func runC11(t *testing.T, c *c11Case, known func(string) bool) (out c11Outcome) 
 	func() {
 		start := time.Now()
 		r := relay.New(ms(c.LatMs))
+		r.FailDeletes(c.DelFail)
 		cliKey, srvKey := ecdhKey(c.Seed, "cli"), ecdhKey(c.Seed, "srv")
 		pass := entropy(c.Seed, "pass", 14)
 		auth := entropy(c.Seed, "auth", 64)
@@ -619,6 +624,7 @@ func genC11(t *rapid.T) *c11Case {
 	c.ClientMax = rapid.SampledFrom([]int{2, 2, 2, 1, 0}).Draw(t, "client_max")
 	c.LatMs = rapid.SampledFrom([]int{0, 1, 50}).Draw(t, "lat")
 	c.CancelDialCtx = rapid.Bool().Draw(t, "cancel_dial_ctx")
+	c.DelFail = rapid.SampledFrom([]int{0, 0, 0, 1, 2}).Draw(t, "del_fail")
 	c.Actions = []sessAction{{Op: "connect", Arg: rapid.SampledFrom([]int{0, 0, 1, 500, 3000}).Draw(t, "first_offset")}}
 	ag := rapid.Custom(func(t *rapid.T) sessAction {
 		op := rapid.SampledFrom([]string{"connect", "connect", "transfer", "transfer", "close_client", "close_server", "wait", "intruder", "connect_early"}).Draw(t, "op")
